@@ -35,10 +35,11 @@ def rows4(flat):
     return [list(flat[4 * i:4 * i + 4]) for i in range(4)]
 
 
-def run_case(case):
+def run_case(top):
+    """load the document once; check the primary controller, then every extra controller of the
+    same document (each with its own sources, possibly re-using source ids, and its own instances)"""
     import collada
-    from collada.common import DaeMalformedError
-    from collada import controller
+    from collada.common import DaeMalformedError, DaeError
     fails = []
     obs = {'code': 0, 'view': None, 'bound': None}
 
@@ -46,16 +47,16 @@ def run_case(case):
         if len(fails) < 4:
             fails.append({'clause': clause, 'site': site, 'what': what})
 
+    case = top
     exp = case['expect']
+    extras = top.get('extras') or []
     try:
-        mesh = collada.Collada(io.BytesIO(case['xml'].encode('utf-8')))
-        if len(mesh.controllers) != 1:
+        mesh = collada.Collada(io.BytesIO(top['xml'].encode('utf-8')))
+        if len(mesh.controllers) != 1 + len(extras):
             raise RuntimeError('document loaded with %d controllers, errors %r' % (len(mesh.controllers), mesh.errors))
-        ctrl = mesh.controllers[0]
     except Exception as e:  # noqa
         obs['code'] = exc_code(e)
         if exp['outcome'] == 'ref-error':
-            from collada.common import DaeError
             if not isinstance(e, DaeError):
                 fail('ref-level', case['fault'], 'a %s with a broken reference (%s) raises %r, not a DaeError'
                      % (case['kind'], exp.get('why'), e))
@@ -65,12 +66,53 @@ def run_case(case):
                      % (case['kind'], case['fault'], e))
         else:
             fail('accepts', type(e).__name__, 'a well-formed %s fails to load: %r' % (case['kind'], e))
+        if extras and exp['outcome'] != 'ok':
+            # the other controllers of the document are not affected by the faulty one
+            try:
+                mesh = collada.Collada(io.BytesIO(top['xml'].encode('utf-8')), ignore=[DaeError])
+                obs['extras'] = []
+                for sub in extras:
+                    o, f = check_controller(mesh, sub, top)
+                    obs['extras'].append(o)
+                    fails.extend(f[:2])
+                if exp['outcome'] == 'malformed' and not any(isinstance(x, DaeMalformedError) for x in mesh.errors):
+                    fail('rejects', case['fault'], 'with errors ignored, the faulty %s is not recorded as DaeMalformedError: %r'
+                         % (case['kind'], mesh.errors))
+            except Exception as e2:  # noqa
+                fail('isolation', 'ignore', 'loading the document with errors ignored raised %r' % (e2,))
         return {'obs': obs, 'fails': fails}
     if exp['outcome'] == 'ref-error':
         fail('ref-level', case['fault'], 'a %s with a broken reference (%s) is accepted' % (case['kind'], exp.get('why')))
     if exp['outcome'] == 'malformed':
         fail('rejects', case['fault'], 'a %s with fault "%s" (%s) is accepted' % (case['kind'], case['fault'], exp.get('why')))
+    o, f = check_controller(mesh, case, top)
+    obs.update(o)
+    fails.extend(f)
+    obs['extras'] = []
+    for sub in extras:
+        o, f = check_controller(mesh, sub, top)
+        obs['extras'].append(o)
+        fails.extend(f[:2])
+    return {'obs': obs, 'fails': fails[:6]}
 
+
+def check_controller(mesh, case, top):
+    """-> (observation, failures) for one loaded controller of the document"""
+    from collada import controller
+    fails = []
+    obs = {'code': 0, 'view': None, 'bound': None}
+
+    def fail(clause, site, what):
+        if len(fails) < 4:
+            fails.append({'clause': clause, 'site': site, 'what': what})
+
+    exp = case['expect']
+    ctrl = mesh.controllers.get(case.get('cid', 'ctrl'))
+    if ctrl is None:
+        fail('accepts', 'missing', 'controller %s is not in the loaded document (errors %r)' % (case.get('cid', 'ctrl'), mesh.errors))
+        return obs, fails
+    if exp['outcome'] != 'ok':
+        return obs, fails
     if case['kind'] == 'skin':
         skin = ctrl
         try:
@@ -86,7 +128,7 @@ def run_case(case):
             obs['view'] = view
         except Exception as e:  # noqa
             fail('observe', 'Skin', 'reading the loaded skin raised %r' % (e,))
-            return {'obs': obs, 'fails': fails}
+            return obs, fails
         if exp['outcome'] == 'ok':
             if len(skin) != len(case['vcount']):
                 fail('groups', 'len', 'len(skin) = %d for %d vcount entries' % (len(skin), len(case['vcount'])))
@@ -123,7 +165,8 @@ def run_case(case):
                 src_prims = list(skin.geometry.primitives)
                 obs['bound'] = []
                 for trav in range(2):
-                    bound = list(mesh.scene.objects('controller'))
+                    bound = [b for b in mesh.scene.objects('controller')
+                             if getattr(b, 'skin', None) is skin]
                     if len(bound) != len(paths) or not all(isinstance(b, controller.BoundSkin) for b in bound):
                         fail('bound', 'objects', "scene.objects('controller') yields %r for %d path(s) to the instance"
                              % (bound, len(paths)))
@@ -174,7 +217,7 @@ def run_case(case):
             obs['view'] = {'base': morph.source_geometry.id, 'pairs': pairs}
         except Exception as e:  # noqa
             fail('observe', 'Morph', 'reading the loaded morph raised %r' % (e,))
-            return {'obs': obs, 'fails': fails}
+            return obs, fails
         if exp['outcome'] == 'ok':
             if morph.source_geometry is not mesh.geometries.get(case['base']):
                 fail('morph', 'base', 'source_geometry is not the geometry object %s' % case['base'])
@@ -182,7 +225,7 @@ def run_case(case):
                     any(g is not mesh.geometries.get(g.id) for g, _ in morph.target_list) or \
                     any(morph[i] is not morph.target_list[i] for i in range(len(morph))):
                 fail('morph', 'pairs', 'target_list %r, expected %r' % (pairs, exp['pairs']))
-    return {'obs': obs, 'fails': fails}
+    return obs, fails
 
 
 def main():
